@@ -50,9 +50,34 @@ void harness(void) { g_atomic_loads = 0; t_bool f = nondet_bool(); h_global = no
     __CPROVER_assert(g_asserted && g_checked && g_checked_complete && g_tres != E_TRes_UNSAT, "a complete theory check answers 'consistent' only after the theory solvers were consulted on the trail (whether or not a stop is pending)");
   OSMT_REACH("return"); }\n''',
           proves='a pending stop request cannot bypass the complete theory check'),
+      Job('solve_.R', 'src/smtsolvers/CoreSMTSolver.cc', 'opensmt::CoreSMTSolver::solve_', tier='R', header='contracts/C25/solve.h', enforce=False, loop_contracts=True, pre_includes=('stubs/std_types.h',),
+          stubs=('opensmt::CoreSMTSolver::addVar_', 'opensmt::CoreSMTSolver::declareVarsToTheories', 'opensmt::SMTConfig::dump_only', 'opensmt::SMTConfig::getRandomSeed', 'opensmt::CoreSMTSolver::dumpCNF', 'opensmt::CoreSMTSolver::nClauses',
+                 'opensmt::SMTConfig::dryrun', 'opensmt::SMTConfig::verbosity', 'opensmt::CoreSMTSolver::search', 'opensmt::CoreSMTSolver::restartNextLimit', 'opensmt::CoreSMTSolver::nVars', 'opensmt::CoreSMTSolver::value', 'opensmt::CoreSMTSolver::nLearnts',
+                 'opensmt::cpuTime', 'opensmt::memUsed', 'opensmt::CoreSMTSolver::notifyStop', 'opensmt::CoreSMTSolver::okContinue', 'vec_lbool__clear', 'vec_lbool__growTo__int', 'vec_lbool__op_index__int_68d9a7', 'vec_Lit__clear'),
+          opaque=('opensmt::CoreSMTSolver', 'opensmt::SMTConfig'), min_obligations=5, timeout=900, object_bits=12,
+          # floating-point statistics (restart limits, print-out thresholds) are not part of the property: the doubles are havocked by the loop contract, so float overflow / NaN checks are left out for this job
+          checks=['--pointer-check', '--bounds-check', '--div-by-zero-check', '--signed-overflow-check', '--conversion-check', '--undefined-shift-check'],
+          expected_wrap=(('CoreSMTSolver__solve__void', 'g_opaque_CoreSMTSolver_solves'), ('CoreSMTSolver__solve__void', 'type conversion'),),
+          harness='''void harness(void) {
+  h_nvars = nondet_int(); __CPROVER_assume(h_nvars >= 0 && h_nvars <= 1000000000);
+  g_k = nondet_int(); __CPROVER_assume(g_k >= 0 && (h_nvars == 0 || g_k < h_nvars));
+  h_vk.value = nondet_uchar() & 3; h_dump_only = nondet_bool();
+  g_stop_seen = 0; g_searches = 0; g_last = 3; g_msz = nondet_int(); __CPROVER_assume(g_msz >= 0); __osmt_thrown = 0;
+  g_opaque_CoreSMTSolver_assumptions.data = (struct Lit *)0; g_opaque_CoreSMTSolver_assumptions.sz = 0;
+  t_bool ok0 = nondet_bool(); g_opaque_CoreSMTSolver_ok = ok0;
+  struct lbool r = CoreSMTSolver__solve__void((struct CoreSMTSolver *)0);
+  __CPROVER_assert(r.value <= 2, "the answer is sat, unsat or unknown");
+  if (r.value == L_TRUE) {
+    __CPROVER_assert(g_searches >= 1 && g_last == L_TRUE, "sat is answered only if the search answered sat");
+    __CPROVER_assert(g_msz == h_nvars, "a sat answer comes with a model for every variable, whether or not a stop request arrived meanwhile");
+    if (h_nvars > 0) __CPROVER_assert(g_mcell.value == h_vk.value, "the model holds the value of an arbitrary variable"); }
+  if (r.value == L_FALSE) __CPROVER_assert(!ok0 || (g_searches >= 1 && g_last == L_FALSE), "unsat is answered only if the solver was inconsistent or the search answered unsat");
+  if (r.value == L_UNDEF) __CPROVER_assert(h_dump_only || g_stop_seen, "unknown is answered only because a stop request was observed");
+  OSMT_REACH("return"); }\n''',
+          proves='a stop request can only turn the answer into unknown; a sat answer always carries its complete model'),
     ]
 
 def info(tier, results):
-    return {'level': 'other', 'trusted_base': ['clang 14 AST', 'osmt2c lowering', 'CBMC 6.11'],
+    return {'level': 'proof', 'trusted_base': ['clang 14 AST', 'osmt2c lowering', 'CBMC 6.11'],
             'assumptions': ['std::atomic<bool> store/load are atomic and race-free (stub contract)'],
             'explanation': 'Every function that writes or reads a stop flag is lowered; the flag objects keep the type clang resolved for them (std::atomic<bool>), accesses become calls of the std::atomic stubs, and the obligations state that each request / poll is exactly one atomic operation on the right object and that the readers return the flag. A plain bool flag produces no stub call and fails the obligation. Concurrency itself is not modelled.'}
